@@ -2,4 +2,4 @@
 Require Import H4.SlabSpec H4.SlabModel.
 Require Extraction.
 Require ExtrOcamlBasic.
-Extraction "../extract/gen/slab_model.ml" s_init s_run default_fill nt_size m_init m_run.
+Extraction "../extract/gen/slab_model.ml" s_init s_run s_step default_fill nt_size m_init m_run m_step file_recsize m_set_recsize.
